@@ -7,7 +7,7 @@ from . import common
 FAMILY = {"C06": "Txn", "C09": "Gen", "C20": "Met"}
 
 
-def run(ctx, n, kinds, par=4, passes=1):
+def run(ctx, n, kinds, par=4, passes=1, edge_n=0):
     pid = ctx.pid
     fam = FAMILY[pid]
     allobs = os.path.join(ctx.tmp, "txn_all.ndjson")
@@ -22,6 +22,18 @@ def run(ctx, n, kinds, par=4, passes=1):
                     tf.write(open(trf).read())
             faults += json.loads(p.stdout.strip().splitlines()[-1])["faults"]
             out.write(open(obs).read())
+    if edge_n:
+        # replies timed to land on the T3 expiry: a reply that races the end of the wait must not be lost (finding F11);
+        # the race shows in ~9 % of such scenarios when the defect is present, so many of them are played
+        obs = os.path.join(ctx.tmp, "txn_edge.ndjson")
+        trf = os.path.join(ctx.tmp, "txntr_edge.ndjson")
+        p = ctx.run_vh(["txn", "--n", edge_n, "--seed", ctx.seed * 10 + 7, "--kinds", "edge", "--par", 8, "--out", obs, "--traces", trf], timeout=3000)
+        faults += json.loads(p.stdout.strip().splitlines()[-1])["faults"]
+        with open(allobs, "a") as out:
+            out.write(open(obs).read())
+        if os.path.exists(trf):
+            with open(os.path.join(ctx.tmp, "txntr_all.ndjson"), "a") as tf:
+                tf.write(open(trf).read())
     # design level: exhaustive model check of the implementation-shaped send/reply/registry model
     work = common.stage_spec(os.path.join(ctx.tmp, "spec-sendreply"))
     mc = common.run_tlc(work, "SendReply", cfg="MC_SendReply.cfg", workers=10, timeout=1200)
